@@ -439,12 +439,12 @@ def run(tier, seed, args):
     src = open(os.path.join(cli.ROOT, "tier_s", "c17_fmt.py")).read().replace("len(value) <= 3", "len(value) <= %d" % n)
     gpath = os.path.join(cli.ROOT, "tier_s", "_c17_fmt_gen.py")
     open(gpath, "w").write(src)
-    pct = 120 if tier == "quick" else 1200
+    pct = 120 if tier == "quick" else 900
     procs = crosshair_run.launch(["tier_s._c17_fmt_gen.fmt_rule", "tier_s._c17_fmt_gen.fmt_rule_reach"], pct)
     mod = sys.modules[__name__]
     opts = dict(OPTS)
     max_paths = opts.pop("max_paths")
-    budget = opts.pop("budget_s") if tier == "quick" else 1500
+    budget = opts.pop("budget_s") if tier == "quick" else 900
     opts.setdefault("otimeout", 20.0)
     res = explore.explore("harness.C17", jobs(tier, seed), opts, workers=14, max_paths=max_paths if tier == "quick" else 40000, budget_s=budget)
     ch = crosshair_run.collect(procs, pct + 60)
